@@ -24,7 +24,7 @@ Last(s) == s[Len(s)]
 
 IsProcOp(op) == op \in {"update", "react", "ito", "iwith"}
 IsActOp(op)  == op = "enter" \/ (op = "ctor" /\ ~Manual)      \* activation through initialEnter
-PassiveOps   == {"to", "with", "succeed", "fail", "pc", "pw", "px", "pr", "save", "attach", "obs", "query", "copy"}
+PassiveOps   == {"to", "with", "succeed", "fail", "pc", "pw", "px", "pr", "save", "attach", "obs", "query", "copy", "move"}
 IsGuard(m)   == m \in {M_ENTRY_GUARD, M_EXIT_GUARD}
 IsLife(m)    == m \in {M_ENTER, M_REENTER, M_EXIT}
 IsPhase(m)   == m \in {M_PRE_UPDATE, M_UPDATE, M_POST_UPDATE, M_PRE_REACT, M_REACT, M_POST_REACT}
